@@ -49,10 +49,6 @@ class NPProxy:
             return lift(hi)
         return x
 
-    @staticmethod
-    def identity(n):
-        return _np.identity(n)
-
     inf = _np.inf
     pi = _np.pi
 
